@@ -21,8 +21,11 @@ def make_item(rng, ncalls):
         objs["s%d" % i] = [[rng.choice(vals)] for _ in range(L if equal else rng.randint(2, 5))]
     # one series that is longer than the members of an equal-length collection (a DBA centre of another length)
     objs["s4"] = [[rng.choice(vals)] for _ in range(L + rng.choice([1, 2]))]
-    for i in range(2):
+    for i in range(3):
         objs["m%d" % i] = [list(rng.choice(P2)) for _ in range(rng.randint(2, 4))]
+    # the same three bivariate series twice: C-ordered members, and members in another memory order
+    objs["colm"] = {"col": ["m0", "m1", "m2"], "elem": "numpy"}
+    objs["colmf"] = {"col": ["m0", "m1", "m2"], "elem": rng.choice(["numpy_f", "numpy_tview", "numpy_strided"])}
     objs["col"] = {"col": ["s0", "s1", "s2", "s3"], "elem": rng.choice(["list", "array", "numpy"])}
     # members of the NumPy collection are sometimes non-contiguous views (a column of a matrix, x[::2])
     objs["colnp"] = {"col": ["s0", "s1", "s2", "s3"], "elem": rng.choice(["numpy", "numpy", "numpy_strided"])}
@@ -61,6 +64,10 @@ def make_item(rng, ncalls):
             ma, mb = "m0", "m1"
             rt = rng.choice(["dtw_ndim.distance", "dtw_ndim.distance_fast"])
             calls.append({"routine": rt, "args": [ma, mb], "kinds": [rng.choice(K2), rng.choice(K2)], "opts": opts})
+        elif r < 0.56:
+            calls.append({"routine": rng.choice(["dtw_ndim.distance_matrix", "dtw_ndim.distance_matrix_fast"]),
+                          "args": [rng.choice(["colm", "colmf"])], "kinds": [rng.choice(["col_list", "col_container"])],
+                          "opts": opts})
         elif r < 0.66:
             rt = rng.choice(["dtw.distance_matrix", "dtw.distance_matrix_fast"])
             kind = rng.choice(["col_list", "col_tuple", "col_container"] + (["col_2d"] if equal else []))
@@ -95,7 +102,8 @@ def make_item(rng, ncalls):
             calls.append({"routine": "dtw.distance_matrix[dict]", "args": ["colnp"], "kinds": ["col_list"], "dict": "opts"})
     # repeat earlier calls with re-drawn container kinds (and engine): the same abstract call must give the same result
     layout = [c for c in calls if c["routine"] in ("dtw.warping_paths_fast", "dtw.warping_path_fast",
-                                                   "subsequence_alignment")]
+                                                   "subsequence_alignment", "dtw_ndim.distance_matrix",
+                                                   "dtw_ndim.distance_matrix_fast")]
     for rep in range(max(1, ncalls // 2) + 2):
         # two of the repeats are reserved for routines that hand a second series to C (layout-sensitive)
         c0 = copy.deepcopy(rng.choice(layout if (rep < 2 and layout) else calls))
@@ -116,6 +124,10 @@ def make_item(rng, ncalls):
             c0["kinds"] = [rng.choice(K1C if c_engine else ["list", "array", "numpy", "numpy_strided"]) for _ in c0["kinds"]]
         elif rt == "subsequence_alignment":
             c0["kinds"] = ["numpy", rng.choice(["numpy", "numpy_strided", "numpy_strided"])]
+        elif rt.startswith("dtw_ndim.distance_matrix"):
+            c0["routine"] = rng.choice(["dtw_ndim.distance_matrix", "dtw_ndim.distance_matrix_fast"])
+            c0["args"] = [rng.choice(["colm", "colmf"])]
+            c0["kinds"] = [rng.choice(["col_list", "col_container"])]
         elif rt in ("dba", "dba_loop"):
             # same engine, the collection in another container (list of arrays / SeriesContainer / one 2-D array)
             c0["kinds"] = [rng.choice(["col_list", "col_container"] + (["col_2d"] if equal else [])), "numpy"]
@@ -134,7 +146,7 @@ def items(ctx):
 
 RULE = ("model: Purity.tla (store unchanged by every call, results functional in the content) with a sensitivity "
         "self-test (a routine that normalises its argument in place is refuted). implementation: seeded histories of 4-8 "
-        "calls over shared objects (5 univariate and 2 bivariate series, two collections, one settings dictionary) drawn "
+        "calls over shared objects (5 univariate and 3 bivariate series, four collections, one settings dictionary) drawn "
         "from 20 routines (distance, bounds, cost matrix, path, warp, distance matrix, DBA, subsequence search / alignment, "
         "hierarchical and k-means clustering; both engines) with the container kind re-drawn per call (list, tuple, "
         "array('d'), ndarray, strided / negative-stride / F-ordered / transposed views, list / tuple of arrays, 2-D "
